@@ -61,13 +61,17 @@ PROPS = {'C18': {'title': 'Inflights window is a bounded FIFO under resizing',
                          'Vec::drain(..n)/drain(n..) with the iterator dropped = remove prefix/suffix (R9); <[T]>::to_vec copies (R9)',
                          'indexes < 2^62, lengths < 2^32; a snapshot at index 0 has term 0']},
  'C20': {'title': 'No panic or internal-check failure under contract-abiding use',
-         'modules': ['top', 'prelude', 'pb', 'inflights', 'log_unstable', 'storage_trait', 'raft_log', 'memstorage'],
-         'body': ['inflights', 'log_unstable', 'storage_trait', 'config', 'util', 'raft_log', 'memstorage'],
-         'modes': ['P'],
+         'modules': {'P': ['top', 'prelude', 'pb', 'inflights', 'log_unstable', 'storage_trait', 'raft_log', 'memstorage'],
+                     'S': ['top', 'prelude', 'pb', 'inflights', 'progress', 'quorum', 'tracker', 'log_unstable', 'storage_trait', 'raft_log', 'raft']},
+         'body': {'P': ['inflights', 'log_unstable', 'storage_trait', 'config', 'util', 'raft_log', 'memstorage'], 'S': []},
+         'cone': {'S': ['raft']},
+         'modes': ['P', 'S'],
          'claim': 'PARTIAL',
          'decided': ['for every function under contract (mode P: fatal!/panic!/assert!/unwrap/index/overflow sites are proof obligations) the panic sites are '
                      "unreachable under the function's stated precondition, and every call site inside a verified function establishes its callee's "
-                     'precondition'],
+                     'precondition',
+                     'mode S, raft.rs: the role transitions keep what the internal checks of RawNode::ready rely on: become_follower resets the '
+                     'unpersisted-apply limit (a non-leader never hands out entries it has not persisted, so a pending snapshot excludes committed entries)'],
          'undecided': ['that the stated preconditions hold in every reachable cluster state (needs the global invariant)',
                        'functions not under contract (listed per module in DESIGN.md)'],
          'assumptions': ['see C14, C18, C19']},
